@@ -267,6 +267,24 @@ Definition grid_ts (g : grid) (c : cfg) : list Q :=
 (* sensor.timestamps[:] after __init__ *)
 Definition cache_ts (c : cfg) : list Q := grid_ts (grid_of (c_fmt c)) c.
 
+(* The array the cache holds WHILE __init__ builds the scans (Generated.construction_grid_v*: code 3 = v1 / v2: the
+   estimate when the "quick test for uniform spacing" |(last - first) / dump + 1 - T| < threshold passes, else the real
+   timestamps; code 2 = v3 / v4: the final array).  Sensors extracted during construction keep that alignment (v2:
+   activity and target of the reference antenna, the labels -> Observation/*; v1 extracts none): finding C01r-F1. *)
+Definition quick_test (c : cfg) (thr : Z * Z) : bool :=
+  let ts := map (conv_t c) (all_ts c) in
+  let e := ((last ts 0 - hd 0 ts) / c_dump c + 1 - inject_Z (nT c))%Q in
+  negb (Qle_bool (coef thr) e) && negb (Qle_bool e (- coef thr)).
+
+Definition construction_ts (c : cfg) : list Q :=
+  let p := match c_fmt c with V1 => construction_grid_v1 | V2 => construction_grid_v2
+                            | V3 => construction_grid_v3 | V4 => construction_grid_v4 end in
+  match fst p with
+  | 3 => if quick_test c (snd p) then grid_ts GSynth c else map (conv_t c) (all_ts c)
+  | 2 => cache_ts c
+  | _ => []
+  end.
+
 (* sensor[name] under selection s, for a sensor whose per-dump values on a time grid are G grid:
    G = map g for everything evaluated dump by dump (g = the interpolated history, the MJD of the time, ...) *)
 Definition sensor_eval {A} (G : list Q -> list A) (c : cfg) (s : Select.st) : list A := sensor (G (cache_ts c)) s.
